@@ -94,7 +94,7 @@ def lock_flag_fields(rm: RunModel):
             if 'clamp' in classify(rm, ev):
                 for g in ev.guards:
                     if g.kind == 'truth' and isinstance(g.key[0], str) and g.key[0].startswith('self.'):
-                        out.add(g.key[0])
+                        out.add(g.key[0].split('#')[0])
     return out
 
 
